@@ -522,7 +522,8 @@ class Polygon(Shape2D):
                 break
             except np.linalg.LinAlgError:
                 current_rotation = rowan.random.rand(1)
-                vertices = rowan.rotate(current_rotation, vertices)
+                # Always rotate the original vertices: only this rotation is undone below.
+                vertices = rowan.rotate(current_rotation, self.vertices)
 
         if attempt == max_attempts:
             raise RuntimeError("Unable to solve for a bounding circle.")
